@@ -64,6 +64,39 @@ pub struct C09;
 const HOSTS: &[&str] = &["a.test", "b.test", "www.a.test", "c.example"];
 const UNPARSABLE: &[&str] = &["http://[", "//", "http://", "https://:80/x"];
 const NONHTTP: &[&str] = &["ftp://files.test/x", "mailto:someone@a.test", "data:text/plain,hi", "file:///etc/passwd"];
+/// schemes that are paired with the address of a listening loopback socket which answers any request with a 200: a
+/// client that did not look at the scheme and fetched the target over plain HTTP would come back with a response
+const NONHTTP_LIVE: &[&str] = &["gopher", "ws", "httpx", "h"];
+
+fn live_listener_port() -> u16 {
+    static PORT: std::sync::OnceLock<u16> = std::sync::OnceLock::new();
+    *PORT.get_or_init(|| {
+        let l = std::net::TcpListener::bind("127.0.0.1:0").expect("loopback listener");
+        let port = l.local_addr().unwrap().port();
+        std::thread::spawn(move || {
+            for s in l.incoming().flatten() {
+                std::thread::spawn(move || {
+                    use std::io::{Read, Write};
+                    let mut s = s;
+                    let _ = s.set_read_timeout(Some(std::time::Duration::from_millis(500)));
+                    let mut buf = [0u8; 2048];
+                    let _ = s.read(&mut buf);
+                    let _ = s.write_all(b"HTTP/1.1 200 OK\r\nContent-Length: 2\r\n\r\nok");
+                });
+            }
+        });
+        port
+    })
+}
+
+fn nonhttp_location(i: u8) -> Vec<u8> {
+    let i = i as usize % (NONHTTP.len() + NONHTTP_LIVE.len());
+    match NONHTTP.get(i) {
+        Some(s) => s.as_bytes().to_vec(),
+        None => format!("{}://127.0.0.1:{}/x", NONHTTP_LIVE[i - NONHTTP.len()], live_listener_port()).into_bytes(),
+    }
+}
+
 const FOLLOWED: &[u16] = &[301, 302, 303, 307, 308];
 
 fn path_strategy() -> BoxedStrategy<String> {
@@ -114,7 +147,7 @@ fn loc_strategy() -> BoxedStrategy<Loc> {
         2 => Just(Loc::BackToStart),
         2 => Just(Loc::SelfRef),
         1 => (0u8..UNPARSABLE.len() as u8).prop_map(Loc::Unparsable),
-        1 => (0u8..NONHTTP.len() as u8).prop_map(Loc::NonHttp),
+        2 => (0u8..(NONHTTP.len() + NONHTTP_LIVE.len()) as u8).prop_map(Loc::NonHttp),
         1 => Just(Loc::NonUtf8),
     ]
     .boxed()
@@ -150,7 +183,7 @@ fn render_loc(loc: &Loc, fragment: bool, start: &HttpUrl, current: &HttpUrl) -> 
         Loc::BackToStart => start.render().into_bytes(),
         Loc::SelfRef => current.render().into_bytes(),
         Loc::Unparsable(i) => UNPARSABLE[*i as usize % UNPARSABLE.len()].as_bytes().to_vec(),
-        Loc::NonHttp(i) => NONHTTP[*i as usize % NONHTTP.len()].as_bytes().to_vec(),
+        Loc::NonHttp(i) => nonhttp_location(*i),
         Loc::NonUtf8 => b"/caf\xe9/\xff".to_vec(),
     };
     if fragment && !matches!(loc, Loc::Unparsable(_) | Loc::NonHttp(_)) {
